@@ -5,17 +5,13 @@ open Primaite Primaite.FileSystem
 def pName (s : String) : Name := if s = "~" then "" else s
 def sName (n : Name) : String := if n = "" then "~" else n
 
-def pVerb : String → Verb
-  | "scan" => .scan | "checkhash" => .checkhash | "repair" => .repair | "restore" => .restore
-  | "corrupt" => .corrupt | _ => .other
-
 def sOut : Out → String
   | .success => "success" | .failure => "failure" | .unreachable => "unreachable" | .raised => "raised"
 
 def sFile (f : File) : String := s!"#{f.id}:{sName f.name}:{showBool f.deleted}"
 def sRoutes (r : Routes) : String := "{" ++ ",".intercalate (r.map fun p => s!"{sName p.1}>#{p.2}") ++ "}"
 def sFolder (g : Folder) : String :=
-  s!"#{g.id}:{sName g.name}:{showBool g.deleted}:{g.restoreCountdown}:(" ++ ",".intercalate (g.files.map sFile) ++ "):(" ++
+  s!"#{g.id}:{sName g.name}:{showBool g.deleted}:{g.restoreCountdown}/{g.restoreDuration}:(" ++ ",".intercalate (g.files.map sFile) ++ "):(" ++
   ",".intercalate (g.deletedFiles.map sFile) ++ "):" ++ sRoutes g.fileRoutes
 
 def dump (s : State) : String :=
@@ -23,24 +19,13 @@ def dump (s : State) : String :=
   sRoutes s.folderRoutes ++ s!" c={s.numCreations} d={s.numDeletions}"
 
 def parseOp : List String → Option Op
-  | ["cfile", F, x, force] => (parseBool force).map (Op.createFile (pName F) (pName x))
-  | ["cfolder", F] => some (.createFolder (pName F))
-  | ["dfile", F, x] => some (.deleteFile (pName F) (pName x))
-  | ["dfolder", F] => some (.deleteFolder (pName F))
-  | ["rfile", F, x] => some (.restoreFile (pName F) (pName x))
-  | ["rfolder", F] => some (.restoreFolder (pName F))
-  | ["access", F, x] => some (.access (pName F) (pName x))
-  | ["fverb", F, v] => some (.folderVerb (pName F) (pVerb v))
-  | ["fdel", F, x] => some (.folderDelete (pName F) (pName x))
-  | ["xverb", F, x, v] => some (.fileVerb (pName F) (pName x) (pVerb v))
-  | ["sverb", F, x, v] => some (.fsFileVerb (pName F) (pName x) (pVerb v))
   | ["pre"] => some .preTick
   | ["tick"] => some .tick
-  | _ => none
+  | ws => ofRequest (ws.map pName)
 
 def stepLine (s : State) : List String → State × String
   | ["new", d] =>
-    match d.toInt? with
+    match parseOpt String.toInt? d with
     | some d => (init d, "ok")
     | none => (s, "bad-op")
   | ["dump"] => (s, dump s)
@@ -51,4 +36,4 @@ def stepLine (s : State) : List String → State × String
       (s', sOut o ++ " | " ++ dump s')
     | none => (s, "bad-op")
 
-def main : IO Unit := runDriver (init 3) stepLine
+def main : IO Unit := runDriver (init none) stepLine
